@@ -264,6 +264,10 @@ func c16Rasterizer(dst draw.Image, op draw.Op) *vec.Rasterizer {
 var c16Objs struct {
 	reuse *render.Renderer
 	newRz bool
+	// byValue: the Renderer that draws is a value copy of the one SetRasterizer was
+	// called on (a constructor that returns a configured Renderer by value)
+	byValue bool
+	nRender int // renderings so far in this case: every second one is the handed-over kind
 	// oneRz, when set, is the one vec.Rasterizer of the case: every rendering
 	// points its exported Dst field at the image it draws into and sets DrawOp
 	oneRz *vec.Rasterizer
@@ -285,6 +289,11 @@ func c16Render(dst draw.Image, rect image.Rectangle, op draw.Op, vb ivg.ViewBox,
 	}
 	z := zp
 	z.SetRasterizer(c16Rasterizer(dst, op), rect)
+	c16Objs.nRender++
+	if c16Objs.byValue && c16Objs.nRender%2 == 0 {
+		handedOver := *z
+		z = &handedOver
+	}
 	z.Reset(vb, pal)
 	path := -1
 	skipping := false
@@ -326,6 +335,11 @@ func c16RenderBytes(dst draw.Image, rect image.Rectangle, op draw.Op, vb ivg.Vie
 		z = new(render.Renderer)
 	}
 	z.SetRasterizer(c16Rasterizer(dst, op), rect)
+	c16Objs.nRender++
+	if c16Objs.byValue && c16Objs.nRender%2 == 0 {
+		handedOver := *z
+		z = &handedOver
+	}
 	if err := decode.Decode(z, b); err != nil {
 		c16Objs.bytesErr = "Decode: " + err.Error()
 	}
@@ -449,6 +463,10 @@ func c16Case(c *run.Ctx, idx uint64) {
 	}
 	if c16Objs.newRz {
 		c.Count("rasterizer_from_NewRasterizer", 1)
+	}
+	c16Objs.byValue, c16Objs.nRender = r.Chance(1, 4), 0
+	if c16Objs.byValue {
+		c.Count("renderer_handed_over_by_value_after_setrasterizer", 1)
 	}
 	c16Objs.oneRz = nil
 	if r.Chance(1, 3) {
